@@ -1,0 +1,26 @@
+//go:build verif
+
+package vgirpc
+
+import "github.com/apache/arrow-go/v18/arrow"
+
+// Verification hooks for property C30 (externalized batches resolve to exactly
+// the uploaded data). Add-only; nothing here is used by the library.
+
+func init() {
+	verifConstProviders = append(verifConstProviders, func() []VerifConst {
+		return []VerifConst{
+			verifBytes("c30_k_location", MetaLocation),
+			verifBytes("c30_k_sha", MetaLocationSHA256),
+			verifBytes("c30_k_log_level", MetaLogLevel),
+			verifBytes("c30_k_fetch_ms", MetaLocationFetchMs),
+			verifBytes("c30_k_source", MetaLocationSource),
+			// threshold() of a config that leaves ExternalizeThresholdBytes unset
+			verifNum("c30_default_threshold", (&ExternalLocationConfig{}).threshold()),
+		}
+	})
+}
+
+// VerifC30BatchBufferSize exposes batchBufferSize, the figure externalizeBatchCtx
+// compares with the threshold.
+func VerifC30BatchBufferSize(b arrow.RecordBatch) int64 { return batchBufferSize(b) }
